@@ -2,13 +2,21 @@
 
 use crate::engine::{Ctx, Property};
 
+pub mod c01;
 pub mod c08;
+pub mod c10;
 pub mod c17;
+pub mod c18;
+pub mod decgen;
+pub mod impls;
 
 pub fn property(id: &str, ctx: &Ctx) -> Option<Property> {
     let _ = ctx;
     Some(match id {
+        "C01" => c01::property(),
         "C08" => c08::property(),
+        "C10" => c10::property(),
+        "C18" => c18::property(),
         "C17" => c17::property(),
         _ => return None,
     })
